@@ -7,7 +7,11 @@ import random
 LEAVES = [0, -1, 7, 2 ** 70, 1.5, -0.0, 0.0, float('inf'), float('-inf'), float('nan'), 1e300,
           True, False, None, Ellipsis, '', 'a', "it's", 'say "hi"', 'back\\slash', 'new\nline',
           '\x00', 'é', b'', b'ab', b"q'", b'\xff\x00', 'word ' * 6, 'x' * 30,
-          b'bytes with spaces ' * 2]
+          b'bytes with spaces ' * 2,
+          # both quote kinds, in both majorities, long enough to be split into adjacent literals whose pieces
+          # each contain only one kind
+          'both \' and "', 'it\'s \'x\' "y', '"a" "b" \'c', 'say "hi" it\'s a \'test\' of "quotes" here',
+          b'both \' and " in bytes', b'it\'s \'x\' "y" bytes']
 
 
 def hashable(v):
@@ -55,6 +59,8 @@ def oneline_corpus(chk):
         collections.Counter('aab'), datetime.date(2020, 1, 2), datetime.timedelta(days=1, seconds=3),
         {'key': 'value with spaces', 'n': [1, [2, [3, [4]]]]}, [float('inf'), -0.0], ['a' * 40, 'b' * 30],
         list(range(12)), {'a': {'b': {'c': 1}}},
+        # strings whose printed width differs from len(s) + 2 and from len(repr(s)): escapes, both quote kinds
+        ['it\'s \'x\' "y'], {'k': '"a" "b" \'c'}, ('\n\t\\ \x00',), [b'it\'s \'x\' "y"', b'\xff\x00'], ['\u4e2d\u6587 caf\xe9'],
     ]
     for i, v in enumerate(fixed):
         out.append(('fixed[%d]=%r' % (i, v), v))
